@@ -231,7 +231,40 @@ def _user_mh_classes():
         def __repr__(self):
             return f"RaiseIfMH({self.sibling}=={self.value})"
 
-    return IdentityMH, RaiseIfMH
+    class LazyListMH(MetaHandlerGenerator):
+        """A user-written list generator (0-2 elements) that hands GengyList its elements in an
+        unusual but legal form: as a generator, by appending after creation, or from a buffer
+        list that it clears and reuses afterwards."""
+
+        def __init__(self, mode):
+            self.mode = mode
+            self.buffer = []
+
+        def generate(self, random, grammar, base_type, rec, dependent_values):
+            from geneticengine.grammar.utils import get_generic_parameter
+            from geneticengine.solutions.tree import GengyList
+
+            inner = get_generic_parameter(base_type)
+            elems = [rec(inner) for _ in range(random.randint(0, 2))]
+            if self.mode == "generator":
+                return GengyList(inner, (e for e in elems))
+            if self.mode == "append":
+                out = GengyList(inner, [])
+                for e in elems:
+                    out.append(e)
+                return out
+            self.buffer[:] = elems
+            out = GengyList(inner, self.buffer)
+            self.buffer = []
+            return out
+
+        def validate(self, v) -> bool:
+            return True
+
+        def __repr__(self):
+            return f"LazyListMH({self.mode})"
+
+    return IdentityMH, RaiseIfMH, LazyListMH
 
 
 def build_refinement(r):
@@ -284,7 +317,9 @@ def build_refinement(r):
             return Dependent(sib, lambda first, second: IntRange(10 * first + second, 10 * first + second))
         raise ValueError(rule)
     if k == "UserMH":
-        IdentityMH, RaiseIfMH = _user_mh_classes()
+        IdentityMH, RaiseIfMH, LazyListMH = _user_mh_classes()
+        if r[1] == "lazy_list":
+            return LazyListMH(r[2])
         if r[1] == "identity":
             return IdentityMH()
         if r[1] == "raise_if":
@@ -309,9 +344,14 @@ def materialise(spec) -> Materialised:
             else:
                 cls = abstract(type(a["name"], (), {"__module__": modname}))
         else:
-            cls = abstract(type(a["name"], (classes[a["parent"]],), {"__module__": modname}))
-            if a.get("weight") is not None:
-                cls = weight(a["weight"])(cls)
+            cls = type(a["name"], (classes[a["parent"]],), {"__module__": modname})
+            if a.get("weight") is not None and a.get("weight_first"):
+                # @abstract written ABOVE @weight(w): the weight is attached first
+                cls = abstract(weight(a["weight"])(cls))
+            else:
+                cls = abstract(cls)
+                if a.get("weight") is not None:
+                    cls = weight(a["weight"])(cls)
         classes[a["name"]] = cls
         setattr(module, a["name"], cls)
 
@@ -598,6 +638,8 @@ def _class_field(draw, fl: Flags, targets: list[str], abstracts: list[str]):
         forms.append("tuple")
     if fl.user_mh:
         forms.append("idmh")
+        if _has_lists(fl) and fl.bare_lists and not fl.finite_choice and (fl.list_of_abstract or ref[1] not in abstracts):
+            forms.append("lazymh")
     k = draw(st.sampled_from(forms))
     if k == "ref":
         return ref
@@ -634,6 +676,8 @@ def _class_field(draw, fl: Flags, targets: list[str], abstracts: list[str]):
         return ["tuple", comps]
     if k == "idmh":
         return ["ann", ref, ["UserMH", "identity"]]
+    if k == "lazymh":
+        return ["ann", ["list", ref], ["UserMH", "lazy_list", draw(st.sampled_from(["generator", "append", "buffer"]))]]
     raise AssertionError(k)
 
 
@@ -764,6 +808,7 @@ def specs(draw, fl: Flags | None = None):
             if a["parent"] and draw(st.integers(0, 2)) == 0:
                 # a nested abstract type is itself a (weighted) production of its parent
                 a["weight"] = draw(st.one_of(st.integers(1, 5), st.sampled_from([0.5, 2.0])))
+                a["weight_first"] = draw(st.booleans())
         for c in concretes:
             if c["parent"] and draw(st.booleans()):
                 lo = 0 if fl.zero_weights else 1
